@@ -422,7 +422,7 @@ func runC07(w *mon.W) {
 	defer c07Recheck(w)
 	r := w.Rng
 	total := w.Share(w.Pick(1200, 20000))
-	vo := gen.ValOpts{IntegralF: false}
+	vo := gen.ValOpts{IntegralF: false, Links: true} // links (CIDs) as metadata, argument and policy values too
 	for it := 0; it < total; it++ {
 		typ := []string{"dlg", "inv"}[it%2]
 		o := gen.SpecOpts{AnyAlgPct: 20, Val: vo}
